@@ -43,6 +43,7 @@ def setup(ctx):
     ctx.require("monitor", "scheduled_histories", 20)
     ctx.require("monitor", "wired_decisions", 30)
     ctx.require("monitor", "wired_tls_decisions", 40)
+    ctx.require("monitor", "extreme_config_decisions", 100)
     ctx.require("monitor", "wired_through_serve_command", 7)
 
 
@@ -458,6 +459,55 @@ def run_wired_tls(ctx):
         shutil.rmtree(base, ignore_errors=True)
 
 
+def run_extremes(ctx):
+    """Legal values at the edges of the number line: an unlimited refill rate (inf), a very fast and a very slow one,
+    a huge capacity, capacity 1 - on a clock that stands still within a burst (elapsed time 0.0, as on any coarse
+    clock).  The decisions follow from the definition without arithmetic: nobody is refused whose allowance is not
+    exhausted, nobody admitted whose allowance is."""
+    inf = float("inf")
+    cases = [
+        # (config, events, expected decisions per request)
+        ({"capacity": 3, "rate": inf, "retry_after": 7}, [(0.0, ["10.1.0.1"] * 5), (0.0, ["10.1.0.1"] * 2), (1.0, ["10.1.0.1"] * 4), (700.0, ["10.1.0.1"] * 2)], None),
+        ({"capacity": 1, "rate": inf, "retry_after": 7}, [(0.0, ["10.1.0.1", "10.1.0.2", "10.1.0.1", "10.1.0.1"]), (0.125, ["10.1.0.1"] * 3)], None),
+        ({"capacity": 10 ** 12, "rate": 0.0, "retry_after": 7}, [(0.0, ["10.1.0.1"] * 50), (5.0, ["10.1.0.1"] * 50)], "all"),
+        ({"capacity": 2, "rate": 2.0 ** 30, "retry_after": 7}, [(0.0, ["10.1.0.1"] * 4), (2.0 ** -20, ["10.1.0.1"] * 4)], [True, True, False, False, True, True, False, False]),
+        ({"capacity": 1, "rate": 2.0 ** -40, "retry_after": 7}, [(0.0, ["10.1.0.1"] * 2), (1000.0, ["10.1.0.1"] * 2), (100000.0, ["10.1.0.1"])], [True, False, False, False, False]),
+    ]
+    for cfg, events, expected in cases:
+        try:
+            decisions, ticks, _ = run_history(cfg, events)
+        except Exception as e:  # noqa: BLE001
+            ctx.violation(f"limiter-raised:{type(e).__name__}:extreme-config", f"the limiter raised {type(e).__name__} under a legal configuration: {str(e)[:80]}", {"config": {k: str(v) for k, v in cfg.items()}})
+            continue
+        got = [d[2] for d in decisions]
+        ctx.count("monitor", "extreme_config_decisions", len(got))
+        ctx.count("monitor", "decisions", len(got))
+        wit = {"config": {k: (str(v) if isinstance(v, float) else v) for k, v in cfg.items()}, "events": [(t, len(a)) for t, a in events], "decisions": got,
+               "responses": [d[3] for d in decisions if not d[2]][:3]}
+        if cfg["rate"] == inf or expected == "all":
+            # an unlimited refill (or a capacity nobody reaches) exhausts no allowance: within one instant at most `capacity`
+            # can be spent, after ANY time has passed the bucket is full again
+            bad = None
+            if expected == "all" and not all(got):
+                bad = got.index(False)
+            elif cfg["rate"] == inf:
+                idx = 0
+                for t, addrs in events:
+                    per = {}
+                    for a in addrs:
+                        per[a] = per.get(a, 0) + 1
+                        # the n-th request of one address within one instant: admitted while n <= capacity
+                        if per[a] <= cfg["capacity"] and not got[idx] and (t > 0 or True):
+                            bad = idx if bad is None else bad
+                        idx += 1
+            if bad is not None:
+                ctx.violation("spurious-refusal:extreme-config:" + ("rate=inf" if cfg["rate"] == inf else "huge-capacity"), f"request #{bad} was refused although the address's allowance cannot be exhausted there", wit)
+        elif got != expected:
+            first = next(i for i, (a, b) in enumerate(zip(got, expected)) if a != b)
+            ctx.violation(("over-admission" if got[first] else "spurious-refusal") + ":extreme-config", f"request #{first}: limiter says {got[first]}, the definition says {expected[first]}", dict(wit, expected=expected))
+        ctx.case(("extreme", str(cfg["capacity"]), str(cfg["rate"]), tuple(got[:12])), True, sample=wit)
+
+
 def run_effect(ctx):
     """Admissions counted where they matter: behind the limiter, the number of requests that reach a handler
     (Gemini handler, Titan upload handler, Titan delete) never exceeds what the limiter admitted - a refused
@@ -493,6 +543,8 @@ def run(ctx):
         run_effect(ctx)
     if ctx.mine(2) or ctx.nshards == 1:
         run_wired_tls(ctx)
+    if ctx.mine(3) or ctx.nshards == 1:
+        run_extremes(ctx)
     rng = ctx.rng("c10")
     k = 0
     # ---- exhaustive small scope
